@@ -46,8 +46,8 @@ ASSUMPTIONS = [
     'mixed inclusion/exclusion, colliding paths, empty path components, positional "$", '
     '"_id.x" paths, arrays directly inside a descended array, `_id: 1` in a $project exclusion',
     '$elemMatch is judged relative to the real matcher filter_applies (C01 covers the matcher)',
-    'find_one_and_* returns None when the projected document is empty (C14 records that); the '
-    'harness expects exactly that',
+    'find_one_and_* picks its target on the full document (fix: commit in /repo) and returns the '
+    'projection of that document, empty or not',
     'sort / skip / limit are not combined with projection here (C11)',
 ]
 
@@ -388,8 +388,6 @@ class Judge(object):
         silent = spec == '?'
         if first.startswith('!') and not first.startswith('!?'):
             impl, silent = first, True     # the first lookup already raised
-        elif first == '{ }':
-            impl, silent = '_', True       # an empty projected document reads as "not found"
         py = w(c['famres'], o)
         self.judge(c, 'find_one_and_' + c['fam'], py, impl, py in (spec, spec2), silent, reasons,
                    'mongomock Collection.find_one_and_* (projection=) ~ MongoModel.copyOnlyFields')
